@@ -42,8 +42,9 @@ def sexp(t):
 class G:
     """type generator; every choice from the one PRNG"""
 
-    def __init__(self, r, refs=True, zero_dims=True, max_nd=3, strings=True):
+    def __init__(self, r, refs=True, zero_dims=True, max_nd=3, strings=True, ref_bias=False):
         self.r, self.refs, self.zero_dims, self.max_nd, self.strings = r, refs, zero_dims, max_nd, strings
+        self.ref_bias = ref_bias
 
     def ty(self, depth, compound_only=False, target=False):
         """target=True: a reference target / union member (Struct or Array, as the grammar says)"""
@@ -53,8 +54,8 @@ class G:
             kinds += ["scalar"] * 3 + (["string"] if self.strings else [])
         if depth > 0:
             kinds += ["struct"] * 2 + ["array"] * 3
-            if depth > 1 and self.refs and not target:
-                kinds += ["ref", "uref"]
+            if self.refs and not target and (depth > 1 or self.ref_bias):
+                kinds += ["ref", "uref"] * (3 if self.ref_bias else 1)
         elif compound_only:
             kinds += ["struct0"]
         k = r.choice(kinds)
